@@ -43,6 +43,7 @@ class Ctx:
         self.samples: list = []
         self.assumptions: list[str] = []
         self.tlc_runs: list[dict] = []
+        self.conf_failures: list[str] = []
         self.known = load_known()
 
     @property
@@ -135,6 +136,10 @@ class Ctx:
                 print(f"  ... {len(self.violations) - 20} further violations not written")
             print(f"[{self.pid}] {len(self.violations)} violation(s), {wall:.1f}s")
             return 1
+        if self.conf_failures:
+            print(f"MACHINERY FAILURE [{self.pid}]: {len(self.conf_failures)} trace(s) without verdict; first: "
+                  f"{self.conf_failures[0]}", file=sys.stderr)
+            return 2
         print(f"[{self.pid}] ok tier={self.tier} seed={self.seed} "
               f"evaluations={cov.get('evaluations')} states={cov.get('states', 0)} "
               f"traces={cov.get('traces_validated_against_impl')} {wall:.1f}s")
